@@ -332,6 +332,16 @@ def run_bpsnap(c):
             c.absorb_go(outs[i], "")
         c.notes.append("BpSnapshots: %d + %d behaviours, %d steps replayed in %.0fs (%d processes)" % (
             len(gbehs), len(sbehs), sum(len(b["steps"]) for b in gbehs + sbehs), time.time() - t0, nshards))
+        if thorough:
+            # end-to-end confirmation on a real node (real chain service, real staking / v1voteDAO transactions changing BPCOUNT):
+            # a restarted node and a node that reorganised across a snapshot block must report the reference node's list
+            t0 = time.time()
+            e2e_out = os.path.join(c.work, "bps_e2e_out.json")
+            rc, output = vlib.go_test("./internal/verifnode/", "^TestVerifBpSnapE2E$", env={"VERIF_OUT": e2e_out, "VERIF_SEED": c.seed, "VERIF_TIER": c.tier}, timeout=1800)
+            r = c.absorb_go(e2e_out, output)
+            if any("E2E INCOMPLETE" in n for n in r.get("notes") or []) or (rc != 0 and not r.get("violations")):
+                raise vlib.Infra("BpSnapshots end-to-end scenario did not run to its end:\n%s\n%s" % ("\n".join(r.get("notes") or []), output[-2000:]))
+            c.notes.append("BpSnapshots: end-to-end scenario (3 real nodes, 300-block chains) in %.0fs" % (time.time() - t0))
     finally:
         for t in th:
             t.join()
